@@ -318,7 +318,13 @@ def _special_number_repr(
 def _lrepr_float(o: float, human_readable: bool = False, **_) -> str:
     if (r := _special_number_repr(o, human_readable=human_readable)) is not None:
         return r
-    return repr(o)
+    r = repr(o)
+    if "e" in r and "." not in r:
+        # "1e+23" would be read back as an integer: scientific notation literals take the
+        # type of their significand
+        significand, exponent = r.split("e")
+        return f"{significand}.0e{exponent}"
+    return r
 
 
 @lrepr.register(datetime.datetime)
